@@ -55,6 +55,18 @@ def main(tier: str) -> int:
             if not good:
                 chk.fail("the population is not split into contiguous, non-empty, order-preserving chunks covering every individual once",
                          {"pop_size": pop, "n_jobs": nj, "normalised": got, "chunk_lengths": lens}, {"fn": "_split_population", "negative": nj < 0})
+            # an evaluated array with MORE rows than pop_size (a larger init_population in generation 0 of the GA family):
+            # the chunks still cover every row once, in order
+            if pop <= 12 and got > 1:
+                for extra in (1, 5):
+                    ch2 = ea._split_population(np.arange(pop + extra))
+                    flat2 = [int(x) for c in ch2 for x in c]
+                    chk.count("split_longer_array")
+                    if flat2 != list(range(pop + extra)):
+                        chk.fail("the chunks of an array with more rows than pop_size do not cover every individual exactly once",
+                                 {"pop_size": pop, "n_jobs": nj, "rows": pop + extra, "chunk_lengths": [len(c) for c in ch2],
+                                  "missing": sorted(set(range(pop + extra)) - set(flat2))[:5]}, {"fn": "_split_population", "clause": "longer"})
+                        break
             cuts = [int(x) for x in np.linspace(start=0, stop=pop, num=got + 1, dtype=np.int64)]
             add({"op": "split", "len": pop, "cuts": cuts}, ("split", {"pop_size": pop, "n_jobs": nj, "cuts": cuts}, [[int(x) for x in c] for c in chunks]))
             if got <= pop:
@@ -68,7 +80,15 @@ def main(tier: str) -> int:
         o = cls(**kw)
         o.fit()
         st = o.get_stats()
-        return {"fit": [list(map(float, f)) for f in st["fitness"]], "calls": int(o._calls),
+        first = {"fit": [list(map(float, f)) for f in st["fitness"]], "calls": int(o._calls)}
+        # the same object run again (a second fit() must behave the same with and without workers)
+        try:
+            o.fit()
+            st = o.get_stats()
+            second = "ok"
+        except Exception as e:  # noqa
+            second = type(e).__name__ + ": " + str(e)[:80]
+        return {"first_fit": first, "second_fit": second, "fit": [list(map(float, f)) for f in st["fitness"]], "calls": int(o._calls),
                 "best": float(o.get_fittest()["fitness"]),
                 "pop": [np.asarray(p, dtype=np.float64).tolist() for p in st["population_g"]],
                 "pop_ph": [np.asarray(p, dtype=np.float64).tolist() for p in st["population_ph"]],
@@ -82,6 +102,8 @@ def main(tier: str) -> int:
         ("SHAGA", SHAGA, dict(fitness_function=W.onemax_delayed, iters=3, pop_size=7, str_len=10)),
         ("DifferentialEvolution+g2p", DifferentialEvolution, dict(fitness_function=W.sphere_delayed, genotype_to_phenotype=W.g2p_scale, iters=4, pop_size=8, left_border=-2.0, right_border=2.0, num_variables=3, minimization=True)),
         ("SHADE+g2p", SHADE, dict(fitness_function=W.sphere_delayed, genotype_to_phenotype=W.g2p_scale, iters=4, pop_size=7, left_border=-2.0, right_border=2.0, num_variables=2, minimization=True)),
+        ("GeneticAlgorithm+longer init_population", GeneticAlgorithm, dict(fitness_function=W.onemax_delayed, iters=3, pop_size=8, str_len=10,
+                                                                           init_population=(np.arange(130).reshape(13, 10) % 3 == 0).astype(np.byte))),
         ("SHAGA+g2p", SHAGA, dict(fitness_function=W.sphere_delayed, genotype_to_phenotype=W.g2p_scale, iters=3, pop_size=7, str_len=10)),
     ]
     if tier == "quick":
@@ -97,10 +119,10 @@ def main(tier: str) -> int:
                 chk.count("parallel_runs")
                 chk.case(("run", name, nj, delays))
                 if got != base:
-                    what = "calls" if got["calls"] != base["calls"] else "trajectory"
+                    what = "second fit() on the same object" if got["second_fit"] != base["second_fit"] else ("calls" if got["calls"] != base["calls"] else "trajectory")
                     chk.fail("a run with n_jobs > 1 differs from the run with n_jobs = 1",
                              {"optimizer": name, "n_jobs": nj, "delay_pattern": delays, "differs_in": what,
-                              "calls": [base["calls"], got["calls"]], "best": [base["best"], got["best"]]},
+                              "calls": [base["calls"], got["calls"]], "best": [base["best"], got["best"]], "second_fit": [base["second_fit"], got["second_fit"]]},
                              {"fn": "parallel_run", "negative": nj < 0})
     chk.distribution["parallel_wall_s"] = round(time.time() - t0, 1)
 
